@@ -1030,11 +1030,13 @@ class Curve(BaseCurve):
         )
         errornum = np.max(np.abs(errornum))
         errorden = np.dot(denom.ctrlpoints, np.dot(materror, denom.ctrlpoints))
+        if any(weight == 0 for weight in weights):
+            raise ValueError("Cannot fit: Zero division, a projected weight is null")
         self.weights = weights
         ctrlpoints = [point / weig for point, weig in zip(points, weights)]
         self.ctrlpoints = ctrlpoints
         maxpoint = norm(ctrlpoints) ** 2
-        minweight = min(other.weights)
+        minweight = min(abs(weight) for weight in other.weights)
         return 2 * (errornum + maxpoint * abs(errorden)) / minweight**2
 
     def fit_function(self, function: Callable, nodes: Tuple[float] = None) -> None:
